@@ -291,9 +291,13 @@ class World:
         self.key_of_path = {}
         self.path_of_key = {}
         # a relative cache path resolves against the simulated process' working directory
-        self.cwd = "/SIMFS/cwd" if k.get("relative_path") else None
+        self.cwd = "/SIMFS/cwd" if (k.get("relative_path") or k.get("tilde_path")) else None
         self.cache_dir = (self.cwd + "/" if self.cwd else "/SIMFS/") + k.get("cache_dir", "cache")
         self.cache_arg = k.get("cache_dir", "cache") if self.cwd else self.cache_dir
+        if k.get("tilde_path"):
+            # "~/<dir>": HOME points into the simulated file system for the duration of the run
+            self.cache_dir = "/SIMFS/home/" + k.get("cache_dir", "cache")
+            self.cache_arg = "~/" + k.get("cache_dir", "cache")
         for i, kd in enumerate(self.keys):
             p = self.cache_dir + "/" + cache_file_name(kd)
             self.key_of_path[p] = i
@@ -690,6 +694,9 @@ class World:
         tz_was = _os.environ.get("TZ")
         _os.environ["TZ"] = self.knobs.get("tz", "UTC")  # the process' time zone is part of the configuration
         _t.tzset()
+        home_was = _os.environ.get("HOME")
+        if self.knobs.get("tilde_path"):
+            _os.environ["HOME"] = "/SIMFS/home"
         interpose.bind(self.fs, self.sched, self.clock, entropy_seed=mix(self.record["seed"], "entropy"), cwd=self.cwd)
         simpool.bind(self.sched)
         self._patch_modules()
@@ -730,6 +737,11 @@ class World:
                 interpose.unbind()
                 if gc_was:
                     gc.enable()
+                if self.knobs.get("tilde_path"):
+                    if home_was is None:
+                        _os.environ.pop("HOME", None)
+                    else:
+                        _os.environ["HOME"] = home_was
                 if tz_was is None:
                     _os.environ.pop("TZ", None)
                 else:
@@ -756,6 +768,8 @@ class World:
         self.fs.h_mkdirs("/SIMFS")
         if self.cwd:
             self.fs.h_mkdirs(self.cwd)
+        if self.knobs.get("tilde_path"):
+            self.fs.h_mkdirs("/SIMFS/home")
         self.sync_remote_files()
         self.oracle = self.oracle_factory(self) if self.oracle_factory else None
         ops = list(self.record["ops"])
